@@ -326,7 +326,11 @@ struct ChunkFooter {
 /// For the canonical empty chunk to be `static`, its type must be `Sync`, which
 /// is the purpose of this wrapper type. This is safe because the empty chunk is
 /// immutable and never actually modified.
-#[repr(transparent)]
+///
+/// The empty chunk's address doubles as the bump pointer of an arena that has
+/// not allocated a chunk yet, so it must be aligned to the largest supported
+/// minimum alignment (`CHUNK_ALIGN`), just like the footers of real chunks.
+#[repr(C, align(16))]
 struct EmptyChunkFooter(ChunkFooter);
 
 unsafe impl Sync for EmptyChunkFooter {}
